@@ -23,10 +23,10 @@ def strategy():
     from hypothesis import strategies as st
     # half of the configurations only use names that are offered to the function (high acceptance), the other half also draw
     # parameters nothing outside offers - e.g. an optional parameter whose name a middleware further *inside* provides
-    cfg = st.one_of(G.config(max_levels=1, free_p=0.0, posonly=False, nonreorderable=True, max_mws=5, all_kinds=False),
-                    G.config(max_levels=3, free_p=0.0, posonly=False, nonreorderable=True, max_mws=6, all_kinds=False),
-                    G.config(max_levels=1, free_p=0.08, posonly=False, nonreorderable=True, max_mws=5, all_kinds=False),
-                    G.config(max_levels=3, free_p=0.08, posonly=False, nonreorderable=True, max_mws=6, all_kinds=False))
+    cfg = st.one_of(G.config(max_levels=1, free_p=0.0, posonly=False, nonreorderable=True, max_mws=5, all_kinds=False, renderless_ctx=True),
+                    G.config(max_levels=3, free_p=0.0, posonly=False, nonreorderable=True, max_mws=6, all_kinds=False, renderless_ctx=True),
+                    G.config(max_levels=1, free_p=0.08, posonly=False, nonreorderable=True, max_mws=5, all_kinds=False, renderless_ctx=True),
+                    G.config(max_levels=3, free_p=0.08, posonly=False, nonreorderable=True, max_mws=6, all_kinds=False, renderless_ctx=True))
     sib_mw = st.fixed_dictionaries({'tid': st.integers(0, 5), 'style': st.sampled_from(['func', 'method']),
                                     'request': st.sampled_from([[], None]), 'endpoint': st.sampled_from([None, []]), 'render': st.just(None)}
                                    ).map(lambda m: dict(m, unique=m['tid'] < 4, reorderable=True, provides=[], endpoint_provides=[], render_provides=[]))
@@ -57,11 +57,20 @@ def compare(ctx, w, r, ev, outcome, rc, what):
             ctx.mismatch('outcome-exception', '%s: expected exception %s to escape (re-raising handler), got %r / status %s'
                          % (what, tok, r.exc, r.status), rc)
             return False
+    elif tok == 'ctx':
+        # a context came back without a renderer: the dispatcher's "expected Response" TypeError (re-raising handler) or its 500
+        if not ((isinstance(r.exc, TypeError) and 'expected Response' in str(r.exc)) or (r.exc is None and r.status == 500)):
+            ctx.mismatch('outcome-context', '%s: a context came back without a renderer; expected the "expected Response" failure, got %r / %s'
+                         % (what, r.exc, r.status), rc)
+            return False
+        ctx.event('renderless-context')
     else:
         if r.exc is not None:
             ctx.mismatch('outcome-raised', '%s: expected response %s, got exception %r' % (what, tok, r.exc), rc)
             return False
-        if tok == 'resp:null':
+        if tok == 'ctx':
+            pass
+        elif tok == 'resp:null':
             if r.status not in (404, 405):
                 ctx.mismatch('outcome-null', '%s: expected 404/405, got %s' % (what, r.status), rc)
                 return False
